@@ -278,6 +278,7 @@ def T13():
                 "CONFIG_OI CONFIG_NI",
                 "CONFIG_OS CONFIG_NS",
                 "CONFIG_OH CONFIG_NH",
+                "CONFIG_old_lower CONFIG_NS",
             ],
             [
                 "CONFIG_OI2 CONFIG_NI",
